@@ -366,6 +366,10 @@ def run(chk, repo):
     from rules.shared import coord_slice
     chk.clauses.append('C11.n slicing a DNA / amino-acid record that carries matched locations keeps exactly the intersection of each overlapped location with the slice (query re-based to the slice, ref advanced accordingly)')
     coord_slice(chk, repo, 'C11.n', ['dna.DNASeqRecord:DNASeqRecordWithCoordinates.__getitem__', 'aa.AminoAcidSeqRecord:AminoAcidSeqRecordWithCoordinates.__getitem__'])
+    from rules.shared import truthy_numeric
+    chk.clauses.append('C11.o (shared R-TRUTHY) no numeric parameter (reading frame, index, offset: 0 is a value) is tested by truthiness instead of `is None`')
+    truthy_numeric(chk, repo, 'C11.o', ['gtf', 'SeqFeature'])
+
 
 def exon_loop_inverse(chk, repo, rid):
     """E8: per-iteration affine summaries of the two exon loops, decided over cone domains (see sa/loops.py)"""
